@@ -97,6 +97,26 @@ Proof.
     + apply andb_prop in H as [H1' H2']. apply N.eqb_eq in H1'. subst. f_equal. apply IH. exact H2'.
 Qed.
 
+Lemma fetch_wfF_inv : forall kind_of F f, fetch_wfF kind_of F f = true ->
+  kind_of (f_id f) = f_kind f /\ f_datapath f = datapath_of (f_kind f) /\
+  (forall k, F (f_id f) = Some k -> plain_merge_kind k = true -> mp_empty f = true).
+Proof.
+  intros kind_of F f H. unfold fetch_wfF in H. apply andb_prop in H as [H1 H2].
+  destruct (fetch_wf_inv _ _ H1) as [A B]. split; [exact A|split; [exact B|]].
+  intros k E P. unfold fault_fits in H2. rewrite E, P in H2. exact H2.
+Qed.
+Lemma fetch_wfF_wf : forall kind_of F t, forallb (fetch_wfF kind_of F) t = true -> forallb (fetch_wf kind_of) t = true.
+Proof.
+  intros kind_of F t H. rewrite forallb_forall in *. intros f Hin. specialize (H f Hin).
+  unfold fetch_wfF in H. apply andb_prop in H as [H _]. exact H.
+Qed.
+
+Lemma fetch_wfF_join : forall kind_of F t, forallb (fetch_wf kind_of) t = true -> forallb (fault_fits F) t = true ->
+  forallb (fetch_wfF kind_of F) t = true.
+Proof.
+  intros kind_of F t H1 H2. rewrite forallb_forall in *. intros f Hin. unfold fetch_wfF. rewrite (H1 f Hin), (H2 f Hin). reflexivity.
+Qed.
+
 Definition loud_body (k : fault) : bool :=
   match k with
   | FtTransport | FtStatusEmpty | FtStatusText | FtStatusErrors | FtEmpty | FtNonJSON | FtTruncated | FtNaNBody
@@ -174,9 +194,11 @@ Proof.
     destruct items as [|l [|l2 r]].
     + split; [apply fail_errors_ne|split; [exact H1|left; reflexivity]].
     + destruct (g ents) as [|b0 b] eqn:G; [split; [apply fail_errors_ne|split; [exact H1|left; reflexivity]]|].
+      destruct (wrong_kind_batch f (b0 :: b)); [split; [apply fail_errors_ne|split; [exact H1|left; reflexivity]]|].
       destruct (Nat.eqb (length bs) (length (b0 :: b))) eqn:E; [|split; [apply fail_errors_ne|split; [exact H1|left; reflexivity]]].
       apply Nat.eqb_eq in E. lia.
     + destruct (g ents) as [|b0 b] eqn:G; [split; [apply fail_errors_ne|split; [exact H1|left; reflexivity]]|].
+      destruct (wrong_kind_batch f (b0 :: b)); [split; [apply fail_errors_ne|split; [exact H1|left; reflexivity]]|].
       destruct (Nat.eqb (length bs) (length (b0 :: b))) eqn:E; [|split; [apply fail_errors_ne|split; [exact H1|left; reflexivity]]].
       apply Nat.eqb_eq in E. lia.
 Qed.
@@ -263,16 +285,65 @@ Proof.
       destruct sh, we, s5; cbn; (split; [apply app_one_nonempty|split; [reflexivity|auto]]).
 Qed.
 
+Ltac fin3 := (split; [apply app_one_nonempty|split; [reflexivity|cbn; auto]]).
+
+(* `data` itself a string / number / list on a root fetch (mergeableData, eb6ed70): reported, nothing merged *)
+Lemma data_kind_outcome : forall f sh we s5 r items batch s,
+  f_datapath f = datapath_of (f_kind f) -> f_kind f = FSingle -> mp_empty f = true ->
+  (sh = ShDataStr \/ sh = ShDataNum \/ sh = ShDataArr) ->
+  ls_errors (merge_result f (apply_fault (FtShape sh we s5) r) items batch s) <> [] /\
+  ls_data (merge_result f (apply_fault (FtShape sh we s5) r) items batch s) = ls_data s /\
+  In (f_id f) (ls_errored (merge_result f (apply_fault (FtShape sh we s5) r) items batch s)).
+Proof.
+  intros f sh we s5 r items batch s Hd K Hmp Hsh.
+  unfold merge_result, apply_fault, mk_response; cbn [rs_err rs_body rs_status]. rewrite Hd, K.
+  destruct Hsh as [ -> | [ -> | -> ] ]; destruct we, s5; destruct items as [|l [|l2 rest]]; destruct batch as [bs|];
+    cbn; unfold wrong_kind_single; rewrite ?Hmp; cbn; fin3.
+Qed.
+
+Lemma items_body : forall answer root_answer rq ik we s5,
+  apply_fault (FtItems ik we s5) (clean_response answer root_answer rq false) =
+  mk_response (st_of s5)
+    (BJson (JObj ((k_data, JObj [(k_entities, JArr (repeat (item_of ik) (length (rq_reps rq))))]) :: boom_member we)))
+    (clean_response answer root_answer rq false).
+Proof.
+  intros. unfold apply_fault, clean_response. cbn [rs_body]. unfold entities_count.
+  cbn [get_loc obj_get]. change (bytes_eqb k_data k_data) with true. cbv iota.
+  cbn [get_loc obj_get]. change (bytes_eqb k_entities k_entities) with true. cbv iota.
+  cbn [get_loc]. rewrite !map_length. reflexivity.
+Qed.
+
+(* `_entities` of the right length whose items are numbers / strings / lists (mergeableData, eb6ed70) *)
+Lemma items_outcome : forall answer root_answer f ik we s5 rq items batch s,
+  f_datapath f = datapath_of (f_kind f) -> mp_empty f = true ->
+  (f_kind f = FEntity \/ (f_kind f = FBatch /\ items <> [] /\ batch <> None)) ->
+  ls_errors (merge_result f (apply_fault (FtItems ik we s5) (clean_response answer root_answer rq false)) items batch s) <> [] /\
+  ls_data (merge_result f (apply_fault (FtItems ik we s5) (clean_response answer root_answer rq false)) items batch s) = ls_data s /\
+  In (f_id f) (ls_errored (merge_result f (apply_fault (FtItems ik we s5) (clean_response answer root_answer rq false)) items batch s)).
+Proof.
+  intros answer root_answer f ik we s5 rq items batch s Hd Hmp Hk. rewrite items_body.
+  generalize (length (rq_reps rq)). intros n.
+  unfold merge_result, mk_response; cbn [rs_err rs_body rs_status].
+  match goal with |- context [valid_numbers ?j] => destruct (negb (valid_numbers j)) end.
+  { destruct (non2xx _); (split; [apply fail_errors_ne|split; [reflexivity|left; reflexivity]]). }
+  rewrite Hd. destruct Hk as [K|(K & Hi & Hb)]; rewrite K.
+  - destruct n as [|[|n]]; destruct ik, we, s5; destruct items as [|l [|l2 rest]]; destruct batch as [bs|];
+      cbn; unfold wrong_kind_single; rewrite ?Hmp; cbn; fin3.
+  - destruct items as [|l [|l2 rest]]; [congruence| |]; (destruct batch as [bs|]; [|congruence]);
+      destruct n as [|n]; destruct ik, we, s5; cbn; unfold wrong_kind_batch; rewrite ?Hmp; cbn; fin3.
+Qed.
+
 (* every loud fault on a loaded fetch: at least one error, nothing merged *)
 Lemma loud_outcome : forall answer root_answer f k d0 d rq batch items s,
   (forall id, exists m, fst (root_answer id) = JObj m) ->
   f_datapath f = datapath_of (f_kind f) -> loud (f_kind f) k = true ->
+  (plain_merge_kind k = true -> mp_empty f = true) ->
   prepare f d0 items = PLoad d rq batch ->
   let res := apply_fault k (clean_response answer root_answer rq match f_kind f with FSingle => true | _ => false end) in
   ls_errors (merge_result f res items batch s) <> [] /\ ls_data (merge_result f res items batch s) = ls_data s /\
   In (f_id f) (ls_errored (merge_result f res items batch s)).
 Proof.
-  intros answer root_answer f k d0 d rq batch items s Hrobj Hd Hloud HP. cbv zeta.
+  intros answer root_answer f k d0 d rq batch items s Hrobj Hd Hloud Hmpk HP. cbv zeta.
   destruct (prepare_request _ _ _ _ _ _ HP) as (Hrq & Hb & He).
   destruct (loud_body k) eqn:LB; [apply loud_body_error; assumption|].
   destruct k; try discriminate; simpl in Hloud.
@@ -300,9 +371,18 @@ Proof.
     + unfold clean_response. eapply nan_outcome; reflexivity.
     + unfold clean_response. eapply nan_outcome; reflexivity.
   - (* the data path holds null / a wrong kind / nothing *)
-    destruct (f_kind f) eqn:K; [discriminate| |].
+    destruct (f_kind f) eqn:K.
+    + assert (Hsh : sh = ShDataStr \/ sh = ShDataNum \/ sh = ShDataArr) by (destruct sh; try discriminate; auto).
+      apply data_kind_outcome; [rewrite Hd, K; reflexivity|exact K| |exact Hsh].
+      apply Hmpk. destruct Hsh as [ -> | [ -> | -> ] ]; reflexivity.
     + apply shape_outcome; [rewrite Hd, K; reflexivity|left; exact K].
     + apply shape_outcome; [rewrite Hd, K; reflexivity|right]. split; [exact K|]. split.
+      * eapply prepare_batch_items; eassumption.
+      * destruct (Hb eq_refl) as (bs & _ & _ & ->). discriminate.
+  - (* `_entities` items of a wrong kind *)
+    destruct (f_kind f) eqn:K; [discriminate| |].
+    + apply items_outcome; [rewrite Hd, K; reflexivity|exact (Hmpk eq_refl)|left; exact K].
+    + apply items_outcome; [rewrite Hd, K; reflexivity|exact (Hmpk eq_refl)|right]. split; [exact K|]. split.
       * eapply prepare_batch_items; eassumption.
       * destruct (Hb eq_refl) as (bs & _ & _ & ->). discriminate.
 Qed.
@@ -326,11 +406,11 @@ Section Dichotomy.
   Lemma unfaulted_trans : forall a b c, unfaulted_new a b -> unfaulted_new b c -> unfaulted_new a c.
   Proof. intros a b c H1 H2 rq H. destruct (H2 rq H) as [H3|H3]; [apply H1; exact H3|right; exact H3]. Qed.
 
-  Lemma fetch_dich : forall f s, fetch_wf kind_of f = true ->
+  Lemma fetch_dich : forall f s, fetch_wfF kind_of F f = true ->
     (fst (run_fetch unit eF f (s, tt)) = fst (run_fetch unit e0 f (s, tt)) /\ unfaulted_new s (fst (run_fetch unit e0 f (s, tt))))
     \/ ls_errors (fst (run_fetch unit eF f (s, tt))) <> [].
   Proof.
-    intros f s Hwf. destruct (fetch_wf_inv _ _ Hwf) as [Hk Hd]. unfold run_fetch.
+    intros f s Hwf. destruct (fetch_wfF_inv _ _ _ Hwf) as (Hk & Hd & Hmpk). unfold run_fetch.
     destruct (should_skip f s); [left; split; [reflexivity|intros rq' H'; left; exact H']|].
     destruct (prepare f (ls_data s) (select_items (ls_data s) (f_path f))) as [d|d rq batch] eqn:P;
       [left; split; [reflexivity|intros rq' H'; left; exact H']|].
@@ -338,7 +418,7 @@ Section Dichotomy.
     unfold eF, e0, faulty_exchange, no_faults. rewrite Hrq, Hk.
     destruct (F (f_id f)) as [k|] eqn:EF.
     - right. cbn [fst]. specialize (Hloud _ _ EF). rewrite Hk in Hloud.
-      apply (loud_outcome answer root_answer f k _ _ _ _ _ _ Hrobj Hd Hloud P).
+      apply (loud_outcome answer root_answer f k _ _ _ _ _ _ Hrobj Hd Hloud (Hmpk _ eq_refl) P).
     - left. cbn [fst]. split; [reflexivity|].
       intros rq' Hin. rewrite merge_result_reqs in Hin.
       assert (Hin' : In rq' (ls_reqs s ++ [rq])).
@@ -346,7 +426,7 @@ Section Dichotomy.
       apply in_app_or in Hin' as [H|[H|[]]]; [left; exact H|right]. subst rq'. rewrite Hrq. exact EF.
   Qed.
 
-  Lemma tree_dich : forall t s, forallb (fetch_wf kind_of) (fetches_of t) = true ->
+  Lemma tree_dich : forall t s, forallb (fetch_wfF kind_of F) (fetches_of t) = true ->
     (fst (run_tree unit eF t (s, tt)) = fst (run_tree unit e0 t (s, tt)) /\ unfaulted_new s (fst (run_tree unit e0 t (s, tt))))
     \/ ls_errors (fst (run_tree unit eF t (s, tt))) <> [].
   Proof.
@@ -374,7 +454,7 @@ Section Dichotomy.
   Qed.
 
   Theorem errors_nonempty_partial_proof : forall t,
-    forallb (fetch_wf kind_of) (fetches_of t) = true ->
+    forallb (fetch_wfF kind_of F) (fetches_of t) = true ->
     (exists rq, In rq (ls_reqs (run answer root_answer kind_of no_faults t)) /\ F (rq_fetch rq) <> None) ->
     ls_errors (run answer root_answer kind_of F t) <> [].
   Proof.
